@@ -31,6 +31,9 @@ pub struct TracedTexError {
     )]
     pub error: Box<dyn TexError>,
     pub stack_trace: Vec<StackTraceElement>,
+    // The keys of this map are structs, and formats like JSON only support string keys in maps.
+    // The map is thus serialized as a sequence of (key, value) pairs.
+    #[cfg_attr(feature = "serde", serde(with = "texcraft_stdext::serde_tools::iter"))]
     pub token_traces: HashMap<token::Token, trace::SourceCodeTrace>,
     pub end_of_input_trace: Option<trace::SourceCodeTrace>,
 }
